@@ -28,7 +28,9 @@
  *   merror ID sigma_nf sigma_tr                   vnacal_new_set_m_error (single value)
  *   pvalue PID f                                  vnacal_get_parameter_value
  */
+#ifndef CALCORE_NO_ARCHDEP
 #include "archdep.h"
+#endif
 #include <assert.h>
 #include <complex.h>
 #include <errno.h>
